@@ -519,6 +519,11 @@ func reifyMergeValue(
 		return old, reifyMap(opts.opts, old, sub, opts.validators)
 
 	case reflect.Struct:
+		if baseType == tRegexp {
+			// a regular expression held by value is a primitive, not a
+			// struct to be filled field by field
+			return reifyPrimitive(opts, val, t, baseType)
+		}
 		sub, err := val.toConfig(opts.opts)
 		if err != nil {
 			return reflect.Value{}, raiseExpectedObject(opts.opts, val)
